@@ -91,7 +91,9 @@ func (ctx *Context) Parse(value string) error {
 	}
 	// 设置错误消息语言
 	SetParseErrorLanguage(ctx.Config.ParseErrorLanguage)
+	verifGate("parse.lang", ctx)
 	_, err := p.parse(nil)
+	verifGate("parse.done", ctx)
 	if err != nil {
 		ctx.Error = err
 		return err
@@ -484,6 +486,7 @@ func (ctx *Context) evaluate() {
 		}
 
 		code := e.code[opIndex]
+		verifStep(ctx, opIndex, &code, blockIndex, fstrBlockIndex, diceStateIndex, len(details))
 		cIndex := fmt.Sprintf("%d/%d", opIndex+1, e.codeIndex)
 		if ctx.Config.PrintBytecode {
 			var subThread string
